@@ -1,3 +1,43 @@
-(* C11 — statements are added with the proofs; see DESIGN.md *)
+(* C11 — Timer notifications are accurate and sufficient for every request to finish. Statements only. *)
 From Coq Require Import List NArith Bool.
-From Rustun Require Import Agent.Rto Agent.Model Agent.Monitors.
+Import ListNotations.
+From Rustun Require Import Agent.Rto Agent.Model Proofs.AgentInv Proofs.AgentTrace Proofs.AgentSched.
+Open Scope N_scope.
+
+(* after a successful send_request or a timer call: either nothing is pending and no notification is issued, or the LAST
+   event is a notification naming a pending entry of minimal expiry with the time left until it (0 if overdue) *)
+Theorem C11_notif_spec : forall c o c' r evs now,
+  step c o = (c', r, evs) -> arms o r now ->
+  H c' = [] /\ (forall e, In e evs -> is_notif e = false) \/
+  (exists pre m, evs = pre ++ [Notif (h_id m) (h_exp m - now)] /\ (forall e, In e pre -> is_notif e = false) /\
+                 In m (H c') /\ (forall e, In e (H c') -> h_exp m <= h_exp e)).
+Proof. exact AgentInv.notif_spec. Qed.
+Theorem C11_notif_iff : forall c o c' r evs now,
+  step c o = (c', r, evs) -> arms o r now -> (exists pre id left, evs = pre ++ [Notif id left]) <-> H c' <> [].
+Proof. exact AgentInv.notif_iff. Qed.
+(* pending timers = outstanding requests (one each), so "something pending" is "some request awaits a response" *)
+Theorem C11_pending_iff_outstanding : forall c, Inv c -> (H c = [] <-> T c = []).
+Proof. exact AgentInv.inv_H_nil_iff. Qed.
+(* responses, indications and refused sends never issue a notification *)
+Theorem C11_no_notif_otherwise : forall c o c' r evs,
+  step c o = (c', r, evs) -> (forall now, ~ arms o r now) -> forall e, In e evs -> is_notif e = false.
+Proof. exact AgentInv.no_notif_otherwise. Qed.
+Print Assumptions C11_notif_spec.
+Print Assumptions C11_notif_iff.
+
+(* sufficiency: at any point of any history, a timer call at `now` (however late) leaves only entries that expire after
+   now, and every request whose deadline t0 + slot Rc has passed gets its Failed event in that very call and leaves the
+   table; none fails before its deadline. A controller that fires the armed timer therefore sees every request reach a
+   final outcome no later than the first call at or after its deadline. *)
+Theorem C11_all_due_processed_and_deadline : forall t0of rof c ops now,
+  Inv c -> SInv t0of rof c -> fresh_trace (ids_t (T c)) ops -> Forall (ghost_op t0of rof) ops ->
+  let c1 := fst (run c ops) in
+  let '(c', _, ev) := step c1 (Tmo now) in
+  SInv t0of rof c' /\
+  (forall e, In e (H c') -> now < h_exp e) /\
+  (forall id, In id (ids_t (T c1)) -> deadline t0of rof c1 id <= now ->
+     In (Failed id (rsn id (markers c1))) ev /\ ~ In id (ids_t (T c')) /\ mem id (markers c') = false) /\
+  (forall id rs, In (Failed id rs) ev -> deadline t0of rof c1 id <= now /\ rs = rsn id (markers c1) /\ In id (ids_t (T c1))) /\
+  (forall id p0, In (Out id false p0) ev -> now < deadline t0of rof c1 id /\ In id (ids_t (T c'))).
+Proof. exact AgentSched.run_tmo_deadline. Qed.
+Print Assumptions C11_all_due_processed_and_deadline.
